@@ -347,6 +347,7 @@ func runC07(c *Ctx) {
 	c07WriterCoverage(c, pk, nodeIface)
 	c07Comparators(c, pk)
 	c07FirstOutputNoBlank(c, pk)
+	c07TransferOnEveryPath(c, pk)
 	c07CommentTokens(c, pk)
 	c07PreSortRead(c, pk)
 	c07ScopedFlagRestored(c)
